@@ -40,10 +40,10 @@ CLAUSE_OF = {"MembersFaithful": "members", "LabelsFaithful": "labels", "ImportsF
 # one TLC process explores all domains of a tier (Visitor.tla: QuickDomains / ThoroughDomainsA / ThoroughDomainsB);
 # the machine-wide number of TLC processes is bounded (gverif.tlc slots), so the plan keeps it small
 PLAN = {
-    "quick": {"checks": [("QuickDomains", 8, "3g")], "strict": [INVS], "coverage": False, "three_spellings": ("all",)},
+    "quick": {"checks": [("QuickDomains", 8, "3g")], "strict": [], "coverage": False, "three_spellings": ()},
     "thorough": {"checks": [("ThoroughDomainsA", 10, "4g"), ("ThoroughDomainsB", 10, "4g")], "strict": [[i] for i in INVS],
                  "coverage": True,
-                 "three_spellings": ("all", "deco", "attr3")},
+                 "three_spellings": ("all", "attr3")},
 }
 ACTIONS = ["LeaveIf", "LeaveClass", "LeaveOther", "SkipLine", "VisitClassDef", "MakeProperty", "StashOverload", "AttachAccessor", "PlaceFunction",
            "VisitImport", "HandleAttribute", "VisitAugAssign", "EnterIf", "EnterElse", "EnterExcept", "EnterBlock", "EndModule", "AddLine", "VisitModule"]
@@ -66,6 +66,7 @@ def _w_replay(chunk):
 
             res = {"violations": [], "drift": [], "machinery": f"harness crashed on {case['prog']} ({mode}, spelling {variant}): {exc!r}\n{traceback.format_exc()}", "nontrivial": False, "summary": None}
         res["wf"] = bool(case["wf"])
+        res["model_dev"] = _model_deviations(case)
         new = [sig for sig, _ in res["violations"] if not any(matches(e, sig) for e in KNOWN)]
         stored = None
         if new:
@@ -75,6 +76,25 @@ def _w_replay(chunk):
             sent_history = True
         out.append((case["prog"], variant, mode, list(case["hz"]), res, stored))
     return out
+
+
+DECO_U = {"async", "property", "cached", "staticmethod", "classmethod", "abstractmethod", "writable", "deletable", "dataclass"}
+
+
+def _model_deviations(case) -> list:
+    """Clauses on which the model's Impl tree (as TLC computed it) differs from the reference on this program: the model
+    exhibits the known deviations in the hazardous programs (the Strict configs of the thorough tier show the same as
+    invariant violations with counterexamples)."""
+    if not case["wf"] or not case["hz"]:
+        return []
+    ref = {(m["s"], m["n"]): m for m in case["ref"]}
+    impl = {(m["s"], m["n"]): m for m in case["impl"]}
+    dev = []
+    if {(k, m["l"], m["k"]) for k, m in ref.items()} != {(k, m["l"], m["k"]) for k, m in impl.items()}:
+        dev.append("members")
+    if any(k in impl and impl[k]["l"] == m["l"] and sorted(set(impl[k]["lab"]) & DECO_U) != sorted(m["dl"]) for k, m in ref.items()):
+        dev.append("labels")
+    return dev
 
 
 def _w_corpus(paths):
@@ -107,6 +127,8 @@ def _absorb(run: Run, results, stats, domain):
         stats["replayed-without-hazard"] += 1 if res.get("wf") and not hz else 0
         for h in hz:
             stats["hz:" + h] += 1
+        for c in res.get("model_dev", ()):
+            stats["model-exhibits:" + c] += 1
         stats["pairs"].update((l[0], l[1]) for l in prog)
         stats["tc-guarded-programs"] += 1 if any(l[1] in ("TC", "tTC", "elifTC") for l in prog) else 0
         if res["nontrivial"]:
@@ -167,6 +189,9 @@ def main(tier: str, replay: str | None = None):
 
     t0 = time.time()
     from gverif.common import scratch
+    from gverif.props import c01_corpus, c01_replay, c01_visibility  # noqa: F401  (loaded before the fork: every chunk runs in a fresh worker)
+
+    c01_replay.griffe()
 
     plan = PLAN[tier]
     only = os.environ.get("C01_ONLY", "")            # development aid: C01_ONLY=small restricts the run to the defect domains
@@ -311,7 +336,7 @@ def main(tier: str, replay: str | None = None):
         die(f"C01: the replayed programs use only {len(stats['pairs'])} statement forms: vacuous")
     stats["pairs"] = len(stats["pairs"])
     run.extra["c01"] = {k: v for k, v in sorted(stats.items())}
-    for need in ("hz:init-local", "hz:label-inherit", "tc-guarded-programs"):
+    for need in ("hz:init-local", "hz:label-inherit", "tc-guarded-programs", "model-exhibits:members", "model-exhibits:labels"):
         if not stats[need]:
             die(f"C01: no replayed program with {need}: vacuous")
     print("C01 stats:", json.dumps(run.extra["c01"]))
